@@ -7,18 +7,23 @@ From V Require Import Common.NumFacts C11.Model C11.Proofs.
 
 (* the machine that is run against the implementation: the heap plus the state kept outside the indexers
    (Stream._flow_cache, the factor caches of the units objects, the per-stream property memo) *)
-Definition finalK Vf MWf pkgs utab (l : list init) (ops : list op) : kstate :=
-  fst (runK Vf MWf pkgs utab (buildK l) ops).
+(* the outermost machine: the heap, the state kept outside the indexers, the index-dict pointers and the registry of
+   phase streams (ms[phase]) *)
+Definition finalS Vf MWf pkgs utab (l : list init) (ops : list op) : sstate :=
+  fst (runS Vf MWf pkgs utab (buildS l) ops).
+Definition finalK Vf MWf pkgs utab (l : list init) (ops : list op) : kstate := sk (finalS Vf MWf pkgs utab l ops).
 Definition finalU Vf MWf pkgs utab (l : list init) (ops : list op) : ustate := ku (finalK Vf MWf pkgs utab l ops).
-
-(* the three invariants of the inner layers hold after every history of the outer machine *)
-Lemma inv_final Vf MWf pkgs utab l ops : Inv Vf pkgs (uh (finalU Vf MWf pkgs utab l ops)).
-Proof. exact (lift_runK Vf MWf pkgs utab (fun U => Inv Vf pkgs (uh U)) (inv_stepU Vf MWf pkgs utab) ops (buildK l) (inv_build Vf pkgs l)). Qed.
-Lemma UC_final Vf MWf pkgs utab l ops : UC utab (finalU Vf MWf pkgs utab l ops).
-Proof. exact (lift_runK Vf MWf pkgs utab (UC utab) (UC_stepU Vf MWf pkgs utab) ops (buildK l) (UC_buildU utab l)). Qed.
-Lemma PM_final Vf MWf pkgs utab l ops : PM Vf pkgs (finalU Vf MWf pkgs utab l ops).
-Proof. exact (lift_runK Vf MWf pkgs utab (PM Vf pkgs) (PM_stepU Vf MWf pkgs utab) ops (buildK l) (PM_buildU Vf pkgs l)). Qed.
 Definition final Vf MWf pkgs utab (l : list init) (ops : list op) : heap := uh (finalU Vf MWf pkgs utab l ops).
+
+(* the invariants of all layers hold after every history of the outermost machine *)
+Lemma KInv_final Vf MWf pkgs utab l ops : KInv Vf pkgs utab (finalK Vf MWf pkgs utab l ops).
+Proof. exact (KInv_runS Vf MWf pkgs utab ops (buildS l) (KInv_buildS Vf pkgs utab l)). Qed.
+Lemma inv_final Vf MWf pkgs utab l ops : Inv Vf pkgs (uh (finalU Vf MWf pkgs utab l ops)).
+Proof. exact (proj1 (KInv_final Vf MWf pkgs utab l ops)). Qed.
+Lemma UC_final Vf MWf pkgs utab l ops : UC utab (finalU Vf MWf pkgs utab l ops).
+Proof. exact (proj1 (proj2 (KInv_final Vf MWf pkgs utab l ops))). Qed.
+Lemma PM_final Vf MWf pkgs utab l ops : PM Vf pkgs (finalU Vf MWf pkgs utab l ops).
+Proof. exact (proj1 (proj2 (proj2 (KInv_final Vf MWf pkgs utab l ops)))). Qed.
 
 (* alias_inv: after EVERY history, every view cached for every stream wraps that stream's current molar
    dicts in the current phase order, takes T/P from the stream's own ThermalCondition object, the phase from
@@ -249,8 +254,7 @@ Theorem C11_index_dict_current : forall Vf MWf pkgs utab l ops,
        end).
 Proof.
   intros Vf MWf pkgs utab l ops K i s Hs.
-  pose proof (ICI_runK Vf MWf pkgs utab ops (buildK l) (ICI_buildK l)) as (_ & IC).
-  fold (finalK Vf MWf pkgs utab l ops) in IC. fold K in IC.
+  pose proof (proj2 (proj2 (proj2 (KInv_final Vf MWf pkgs utab l ops)))) as (_ & IC). fold K in IC.
   pose proof (IC i s Hs) as E. split; [exact E|].
   intros M r k. unfold resolve. rewrite M, E. unfold ic_of. rewrite M. reflexivity.
 Qed.
@@ -282,6 +286,23 @@ Proof.
 Qed.
 Print Assumptions C11_units_set_then_get.
 
+(* Stream.reset_flow(phase=p, units=u, chemical=v) after any history: the stream ends in phase p and get_flow in the same
+   unit returns v, i.e. the flow is converted with the molar volume of the NEW phase (phase first, then the flows) *)
+Theorem C11_reset_flow_reads_back : forall Vf MWf pkgs utab l ops,
+  (forall g, ~ MWf g == 0) -> (forall g p T P, ~ Vf g p T P == 0) ->
+  let h := final Vf MWf pkgs utab l ops in
+  forall i s p u w f k v, nth_error (streams h) i = Some s -> multi s = false ->
+  unit_of utab u = Some (w, f) -> ~ f == 0 ->
+  (sdata s < length (rows h))%nat -> (pbox s < length (boxes h))%nat -> (k < length (getrow h (sdata s)))%nat ->
+  let h1 := fst (reset_flow Vf MWf pkgs utab h s (Some p) (Some u) None [(k, v)]) in
+  getbox h1 (pbox s) = p /\
+  exists h2 x, get_item Vf MWf pkgs h1 s w O k = (h2, Ok x) /\ f * x == v.
+Proof.
+  intros Vf MWf pkgs utab l ops MW VN h i s p u w f k v Hs M U NZ D B K.
+  exact (reset_flow_reads_back Vf MWf pkgs utab MW VN h i s p u w f k v (inv_final Vf MWf pkgs utab l ops) Hs M U NZ D B K).
+Qed.
+Print Assumptions C11_reset_flow_reads_back.
+
 (* set_total_keeps_composition: a total-flow setter multiplies every entry of every molar dict of the stream by one
    and the same number (v / F), so the composition is unchanged *)
 Theorem C11_set_total_keeps_composition : forall Vf MWf pkgs h s w v,
@@ -306,7 +327,8 @@ Definition exL : list init :=
 Definition exOps : list op :=
   [ORead 0 VMass; ORead 0 VVol; OLink 2 0 true true true; OUnlink 0; OPhase 0 Pg; OPhase 2 Ps; ORead 1 VMass;
    OCopyLike 1 2; ORoundTrip 1 1; OThermo 0 1; OSet 0 VMass 0 1 4; ORead 0 VVol; ORead 1 VVol; OTotal 1 VVol;
-   OCopyRow 1 VVol 0 1; OTotal 1 VVol; OGetFlow 0 1 0 1; OGetData 0 VMol 1 0 1; OGetData 0 VMass 1 0 1; ORead 1 VMass].
+   OCopyRow 1 VVol 0 1; OTotal 1 VVol; OSub 1 0; ORead 3 VMass; OPhases 1 [Pg; Pl; Ps; PL]; ORead 3 VVol; ORead 1 VVol;
+   OResetFlow 0 (Some Pl) (Some 1%nat) None [(1%nat, 3)]; OGetFlow 0 1 0 1; OGetData 0 VMol 1 0 1; OGetData 0 VMass 1 0 1; ORead 1 VMass].
 
 (* the history runs without leaving the modelled domain, ends with cached mass and volumetric views for streams 0 and 1
    (so the conclusions of alias_inv / vol_get / mass_get talk about existing views), stream 1 has three phases after the
@@ -314,13 +336,13 @@ Definition exOps : list op :=
 Example C11_nonvacuous :
   let h := final exV exMW pkgstub exU exL exOps in
   existsb (fun x => match x with XDomain | XErr EIndex => true | _ => false end)
-          (snd (runK exV exMW pkgstub exU (buildK exL) exOps)) = false /\
+          (snd (runS exV exMW pkgstub exU (buildS exL) exOps)) = false /\
   exists s0 s1 m0 m1 v0 v1,
     nth_error (streams h) 0 = Some s0 /\ nth_error (streams h) 1 = Some s1 /\
     c_mass (getcache h (cch s0)) = Some m0 /\ c_mass (getcache h (cch s1)) = Some m1 /\
     vol_find (tc s0) (c_vols (getcache h (cch s0))) = Some v0 /\
     vol_find (tc s1) (c_vols (getcache h (cch s1))) = Some v1 /\
-    length (srcs h s1) = 3%nat /\ NoDup (rowrefs h s1) /\
+    length (srcs h s1) = 4%nat /\ NoDup (rowrefs h s1) /\
     (forall d, In d (rowrefs h s1) -> (d < length (rows h))%nat /\ length (getrow h d) = length (mwvec exMW pkgstub (pkg s1))) /\
     ~ total exV exMW pkgstub h s1 VMass == 0.
 Proof.
@@ -328,6 +350,6 @@ Proof.
   do 6 eexists. repeat (split; [vm_compute; reflexivity|]).
   split; [vm_compute; repeat constructor; simpl; intuition discriminate|].
   split.
-  - vm_compute. intros d [E|[E|[E|F]]]; try contradiction; subst d; split; try reflexivity; lia.
+  - vm_compute. intros d [E|[E|[E|[E|F]]]]; try contradiction; subst d; split; try reflexivity; lia.
   - vm_compute. discriminate.
 Qed.
